@@ -87,6 +87,8 @@ func (c *Client) receive() ([]Message, error) {
 	var dataSize uint16
 	var m []Message
 
+	// bytes received but not yet handed to the decoder, because they do not fill a cipher block
+	var pending []byte
 	for i, data := 0, make([]byte, uint32(RSCP_CRYPT_BLOCK_SIZE)*uint32(c.config.ReceiveBufferBlockSize)); ; {
 		var err error
 
@@ -97,7 +99,15 @@ func (c *Client) receive() ([]Message, error) {
 			return nil, ErrRscpInvalidFrameLength
 		}
 
-		switch m, err = Read(&c.decrypter, &buf, &crcFlag, &frameSize, &dataSize, data[:i]); {
+		pending = append(pending, data[:i]...)
+		n := len(pending) - len(pending)%int(RSCP_CRYPT_BLOCK_SIZE)
+		if n == 0 {
+			continue
+		}
+		blocks := pending[:n:n]
+		pending = pending[n:]
+
+		switch m, err = Read(&c.decrypter, &buf, &crcFlag, &frameSize, &dataSize, blocks); {
 		case errors.Is(err, ErrRscpInvalidFrameLength):
 			// frame not complete
 			continue
